@@ -1617,12 +1617,12 @@ class Executor(object):
                         res.append(o)
                         continue
                     t, f = self.split(o.st, truthy(o.val))
-                    if t is not None and self.opts.get('loop_exit_ms'):
+                    if t is not None and self.opts.get('loop_exit_scale'):
                         # scenario option: decide 'the loop is over' with a full proof attempt instead of the quick
                         # feasibility pre-check (unrolling a loop over a statically bounded structure)
-                        v_, _, _ = smt.solve(o.st.pc, z3.Not(truthy(o.val)), timeout_ms=self.opts['loop_exit_ms'],
-                                             want_model=False, use_cvc5=False)
-                        if v_ == smt.Verdict.PROVED:
+                        # e-matching only, deterministic resource limit (plus a generous wall-clock safety net)
+                        if not smt.feasible(t.pc, rlimit=int(5e6 * self.opts['loop_exit_scale']),
+                                            timeout_ms=int(1000 * self.opts['loop_exit_scale'])):
                             t = None
                     if f is not None:
                         res.extend(self.exec_block(node.orelse, f, fr) if node.orelse else [Outcome('normal', f)])
